@@ -35,7 +35,7 @@ AOL_TRUSTED = [
 
 PROPS["C01"] = dict(
     module="Panacea.Properties.C01",
-    obligations=[
+    obligations=["Panacea.C01.recInv_validated_genesis", "Panacea.Aol.nodup_full", 
         "Panacea.C01.tables_disjoint", "Panacea.C01.recordKey_injective", "Panacea.C01.recInv_genesis",
         "Panacea.C01.recInv_reachable", "Panacea.C01.addRecord_acknowledged", "Panacea.C01.acked_record_forever",
         "Panacea.C01.offsets_dense", "Panacea.C01.record_table_append_only",
